@@ -205,8 +205,11 @@ def run(tier):
         # back (the window between accept and the session thread reading its arguments is hit on every iteration);
         # every session must still get its own program's reply
         burst_names = [n for n in names if n.startswith("s_")][:8]
-        for dmn, label in ((dt, "tsan"),):
-            for r in range(4 if tier == "quick" else 12):
+        dp = vmd.Daemon(plain, os.path.join(work, "dP"))
+        for dmn, label in ((dt, "tsan"), (dp, "plain")):
+            for r in range(12 if tier == "quick" else 40):
+                if len(mism) >= 8:
+                    break       # a broken tree: enough evidence (every unanswered connection costs a timeout)
                 K = 32
                 batch = [burst_names[(i + r) % len(burst_names)] for i in range(K)]
                 socks = []
@@ -214,7 +217,7 @@ def run(tier):
                     for i in range(K):
                         for attempt in range(200):      # a full listen backlog answers EAGAIN: an ordinary client retries
                             try:
-                                socks.append(dmn.connect(20.0))
+                                socks.append(dmn.connect(8.0))
                                 break
                             except BlockingIOError:
                                 time.sleep(0.01)
@@ -237,7 +240,10 @@ def run(tier):
                             sk.close()
                         except OSError:
                             pass
-        rep.coverage["backlog_burst_sessions"] = 32 * (4 if tier == "quick" else 12)
+        if not dp.alive():
+            rep.violation("plain-daemon-died", {"stderr.txt": dp.stderr_text()[-20000:]}, "the daemon died while serving backlog bursts of 32 connections")
+        dp.stop()
+        rep.coverage["backlog_burst_sessions"] = 2 * 32 * (12 if tier == "quick" else 40)
         if not dt.alive():
             rep.violation("tsan-daemon-died", {"stderr.txt": dt.stderr_text()[-20000:]}, "tsan-built daemon died while serving concurrent clients")
     finally:
